@@ -131,6 +131,11 @@ func (x *xmlParser) Pull() (node.Node, bool, error) {
 			value: (string)(n),
 		}, false, nil
 	case xml.ProcInst:
+		// The XML declaration is not a processing instruction of the document.
+		if n.Target == "xml" {
+			return x.Pull()
+		}
+
 		return XmlProcInst{
 			target: n.Target,
 			value:  string(n.Inst),
